@@ -389,12 +389,22 @@ func updateStatusConditionsFromOwnedObject(
 			continue
 		}
 
+		// Conditions of arbitrary objects are untrusted input:
+		// type and status are required, reason and message may be omitted.
+		condType, typeOk := condMap["type"].(string)
+		condStatus, statusOk := condMap["status"].(string)
+		if !typeOk || !statusOk {
+			return apimachineryerrors.NewBadRequest("malformed condition")
+		}
+		condReason, _ := condMap["reason"].(string)
+		condMessage, _ := condMap["message"].(string)
+
 		newCond := metav1.Condition{
-			Type:               condMap["type"].(string),
-			Status:             metav1.ConditionStatus(condMap["status"].(string)),
+			Type:               condType,
+			Status:             metav1.ConditionStatus(condStatus),
 			ObservedGeneration: objectTemplate.ClientObject().GetGeneration(),
-			Reason:             condMap["reason"].(string),
-			Message:            condMap["message"].(string),
+			Reason:             condReason,
+			Message:            condMessage,
 		}
 		meta.SetStatusCondition(objectTemplate.GetConditions(), newCond)
 	}
